@@ -95,6 +95,13 @@ def assignments(f, rng, dbx, quick):
         vals = [v for v in tab if 0 <= v <= full]
         for v in (rng.sample(vals, min(3, len(vals))) if vals else []):
             yield "lookup_defined", tab[v], v, "ok"
+        # given by name only (raw_value None): every name of the table, once per process in the quick tier
+        seen = _NAMES_DONE.setdefault(f.lookup, set())
+        for v in vals:
+            if quick and v in seen:
+                continue
+            seen.add(v)
+            yield "lookup_by_name", tab[v], None, "ok"
         und = next((v for v in (full, full - 1, 0) if v not in tab), None)
         if und is not None:
             yield "lookup_undefined_code", None, und, "ok"
@@ -127,6 +134,9 @@ def assignments(f, rng, dbx, quick):
         yield "time_oversize", None, float(((1 << bits) + 7) * r), "reject"
         if not f.signed:
             yield "time_negative", None, float(-2 * r), "reject"
+
+
+_NAMES_DONE: dict = {}
 
 
 def get_field(m, fid):
@@ -245,6 +255,8 @@ def same_value(f, value, raw, bf):
     if t == "FLOAT":
         return bf.value == gen.f32(gen.f32_raw(value)), "float32 rounding of the assigned value expected"
     if t == "LOOKUP":
+        if raw is None and isinstance(value, str):
+            return bf.value == value, "the name given must come back"
         return bf.raw_value == raw, "raw code must be identical"
     if t == "RESERVED":
         return bf.value == value, "reserved bits must be identical"
